@@ -14,8 +14,9 @@ from checks import scenarios as S
 PROP = "C07"
 LEVEL = "proof"
 THEOREMS = {"Proofs.Props.C07": ["MsPack.Cab.C07_written_le_declared", "MsPack.Cab.C07_ok_means_complete_partial",
-                                 "MsPack.Cab.C07_count_law_stored"]}
-ASSUMPTIONS = ["the counting law (L1) and the read-error law of the MSZIP/Quantum/LZX decoders are hypotheses of the CAB theorems (proved for stored folders only); CHM and OAB extraction have no theorem yet",
+                                 "MsPack.Cab.C07_count_law_stored", "MsPack.Oab.C07_oab_written_le_target",
+                                 "MsPack.Oab.C07_oab_patch_written_le_target"]}
+ASSUMPTIONS = ["the counting law (L1) and the read-error law of the MSZIP/Quantum/LZX decoders are hypotheses of the CAB theorems (proved for stored folders only); OAB: written <= TargetSize and OK => exactly TargetSize for every input, under the LZX counting law (stored blocks and copy_fh proved); CHM extraction has no theorem yet",
                "all of it is validated by the written-vs-declared oracle on the implementation and by model agreement"]
 RULE = ("every extract/decompress call of: well-formed generated archives (cab, chm, oab), 4-6 malformed variants of each, the shipped fixtures incl. crashers; "
         "strict and salvage mode; short-write faults; observable = (declared, bytes accepted by write, status); non-trivial = a call with declared > 0; distinct by archive bytes + parameters")
@@ -37,6 +38,24 @@ def generate(ctx):
             continue
         yield S.file_lines(c) + ["new chm", "open i0 f.chm", "extract i0 h0 1 o1", "extract i0 h0 0 o0", "extract i0 h0 1 o1b", "close i0 h0", "destroy i0"], \
               dict(family="chm.member-at-padded-end", how="directed", salvage=0, kind="chm", zero_entry=z)
+    # directed: OAB size arithmetic at the 32-bit boundary - a later block whose size makes a running sum wrap
+    # (block_max generous, plenty of data behind the header so that a copy loop would really run)
+    for first in (64, 1):
+        for big in (0x100000000 - first, 0xFFFFFFE0, 0xFFFFFFFF, 0x80000000):
+            for flag in (0, 1):
+                target = 100
+                hdr = struct.pack("<IIII", 3, 1, 0xFFFFFFFF, target)
+                b1 = struct.pack("<IIII", 0, first, first, 0) + bytes(first)
+                b2 = struct.pack("<IIII", flag, big, big, 0) + bytes(rng.randrange(256) for _ in range(9000))
+                f = hdr + b1 + b2
+                yield [f"file full.oab {f.hex()}", "new oab", f"param i0 DECOMPBUF {rng.choice([16, 4096])}", "decompress i0 full.oab out", "destroy i0"], \
+                      dict(family="oab.size-wrap", how="directed", salvage=0, kind="oab", oab_declared=target)
+                ph = struct.pack("<IIIIIII", 3, 2, 0xFFFFFFFF, 0, target, 0, 0)
+                pb1 = struct.pack("<IIII", 0, 0, 0, 0)          # an empty first block keeps the loop going
+                pb2 = struct.pack("<IIII", 9000, big, rng.choice([0, 0xFFFFFFFF, 0xFFFF8001]), 0) + bytes(rng.randrange(256) for _ in range(9000))
+                pf = ph + pb1 + pb2
+                yield [f"file patch.oab {pf.hex()}", f"file base.oab {bytes(200).hex()}", "new oab", "decompressinc i0 patch.oab base.oab out", "destroy i0"], \
+                      dict(family="oab.size-wrap", how="directed", salvage=0, kind="oab", oab_declared=target)
     n = 60 if ctx.tier == "quick" else 2500
     for case in S.valid_cases(rng, n, kinds=["cab", "cab", "cab", "chm", "chm", "oab"], avoid_defects=True):
         variants = [(case["files"], "valid")] + S.malform(rng, case, 3 if ctx.tier == "quick" else 6)
